@@ -130,6 +130,12 @@ class InputExp(_Validation, fsm.FSM):
     def on_enter_expired(self) -> None:
         self.sdata.pop('input', None)
 
+    def _restore_state(self, istate: Sequence, /) -> None:
+        # a saved value must pass the validation like any other value
+        if len(istate) > 2 and 'input' in (sdata := istate[2]):
+            istate = (istate[0], istate[1], {**sdata, 'input': self._validate(sdata['input'])})
+        super()._restore_state(istate)
+
     def calc_output(self) -> Any:
         """Stop the FSM part from setting the output."""
         return self.sdata['input'] if self._state == 'valid' else self._expired
